@@ -29,7 +29,7 @@ def check_c11(case, ctx):
         r, p = item
         if not (isinstance(r, int) and not isinstance(r, bool) and 1 <= r <= n):
             raise Violation("rank-range", f"{kind}: rank {r!r} of team {i} not an int in 1..{n}: {out}")
-        if not (isinstance(p, float) and math.isfinite(p) and -1e-12 <= p <= 1 + 1e-12):
+        if not (isinstance(p, (int, float)) and not isinstance(p, bool) and math.isfinite(p) and -1e-12 <= p <= 1 + 1e-12):
             raise Violation("prob-range", f"{kind}: probability {p!r} of team {i}")
         ranks.append(r)
         probs.append(p)
